@@ -491,6 +491,9 @@ func TestC08(t *testing.T) {
 		if op == "Sum" || op == "Reduce" || op == "ReduceSub" {
 			dts = sumDTs
 		}
+		if op == "Argmax" || op == "Argmin" {
+			dts = append(append([]DT{}, ordNumDTs...), dtStr) // strings have an order too
+		}
 		for _, d := range dts {
 			for _, lk := range c08Layouts {
 				op, d, lk := op, d, lk
@@ -503,6 +506,9 @@ func TestC08(t *testing.T) {
 					sp := 0
 					if d.IsInt() {
 						sp = 10
+					}
+					if d.Name == "string" {
+						sp = 25
 					}
 					c := &C08Case{Op: op, DT: d.Name, Via: rapid.SampledFrom([]string{"pkg", "method"}).Draw(rt, "via")}
 					c.A = genOpnd(rt, shape, lk, lo, hi, sp, "a")
